@@ -187,8 +187,8 @@ Print Assumptions C03_run_race_free.
 
 (* ---- the exclusive publisher and BufferClaim (Model/ExclThreads.v: ExclusivePublication::offer_opt / try_claim over
    ExclusiveTermAppender, the claimant's payload write, set_flags / set_header_type / set_reserved_value, commit, abort) against
-   a subscriber polling with poll / bounded_poll / controlled_poll / bounded_controlled_poll (Model/PollThreads.v; the handler
-   answers of the controlled flavours are arbitrary scripts) and environment threads moving the publication limit.
+   a subscriber polling with ANY of the six flavours - poll, bounded_poll, controlled_poll, bounded_controlled_poll, controlled_peek
+   (+ set_position), block_poll (Model/PollThreads.v; the handler answers of the controlled flavours are arbitrary scripts) and environment threads moving the publication limit.
    reachx quantifies over all interleavings; a crashed thread is one that is never scheduled again. Admissible steps
    (ExclSys.admx): the publisher does not rotate into a partition that still holds an older generation and the subscriber does not
    start a poll there (the driver has not cleaned it): the runs covered stay within the generations n0 .. n0+2. ---- *)
@@ -277,7 +277,7 @@ Proof. intros c th.
 (* the exclusive system: the decidable form of the property (holds_C03x: delivered = committed data frames in order, aborted
    claims are padding and never delivered, position rule, race detector) on a model run in which an exclusive publisher offers a
    fragmented message, commits a claim with header setters and aborts a claim with an application header type, while the
-   subscriber polls with four flavours *)
+   subscriber polls with four flavours (the theorems cover all six) *)
 Example C03_example_excl_run :
   let c := mkCfg 5 10 64 11 22 0 0 in
   let r := run_casex c 2048
@@ -295,7 +295,7 @@ Example C03_example_excl_reach :
 Proof. intros c th.
   assert (R0 : reachxt c 0%nat (init_shared c 4096) th (xg0 c) []).
   { apply (reachxt_init c 0%nat 4096 th [XOffer (payload 1 40)] 3%nat); [reflexivity | |].
-    - intros t Hne. destruct t as [|[|t]]; [congruence | exists 10, [FCtrl [Reader.Commit]]; split; reflexivity|].
+    - intros t Hne. destruct t as [|[|t]]; [congruence | exists 10, [FCtrl [Reader.Commit]]; reflexivity|].
       unfold th, xthreads_of. cbn [nth]. destruct t; exact I.
     - intros t t' l l' H1 H2. destruct t as [|[|t]]; destruct t' as [|[|t']]; try reflexivity; try discriminate;
         unfold th, xthreads_of in *; cbn [nth] in *; try (destruct t; discriminate); try (destruct t'; discriminate). }
